@@ -154,6 +154,11 @@ def check_full(cell, col, colidx, row, pattern, lower, out):
     except Exception as e:  # wrong shape
         out.append(fail('extract_label(%r) has the wrong shape: %r (%s)' % (label, got, type(e).__name__)))
         return
+    if ok and (getattr(cc, 'label', col.upper()) != col.upper() or getattr(r, 'label', digits_of(row)) != digits_of(row)):
+        out.append(fail('extract_label(%r): the parts carry the labels %r / %r, expected %r / %r (the part of the label that spells '
+                        'the index, in upper case)' % (label[:60], getattr(cc, 'label', None), str(getattr(r, 'label', None))[:40], col.upper(),
+                                                       digits_of(row)[:40]), [col.upper()], repr(getattr(cc, 'label', None))))
+        return
     if not ok:
         out.append(fail('extract_label(%r) = %r; expected row %d%s, col %d%s' % (
             label, got, row - 1, ' abs' if rabs else '', colidx, ' abs' if cabs else ''),
